@@ -39,7 +39,7 @@ PRJ = {'utm': gc.utm, 'isg': gc.isg}
 AF = {'grs80': (6378137.0, 298.257222101), 'ans': (6378160.0, 298.25)}
 HEIGHTS = [None, 0.0, -12.5, 603.2489]
 NVALS = [None, 0.0, 14.269]
-POS_ANY = [(-33.5, 151.2), (-23.67, 133.88), (-31.999999, 141.000001), (45.5, -73.6), (-79.9, 179.9), (83.9, -179.5), (0.25, 3.0)]
+POS_ANY = [(-0.5, -0.25), (0.4, -0.7), (-33.5, 151.2), (-23.67, 133.88), (-31.999999, 141.000001), (45.5, -73.6), (-79.9, 179.9), (83.9, -179.5), (0.25, 3.0)]
 POS_ISG = [(-33.5, 151.2), (-31.999999, 141.000001), (-36.9, 149.9), (-28.2, 153.55)]
 
 
@@ -202,6 +202,9 @@ def build(start, cfg):
     E, P = ELL[ell], PRJ[prj]
     rep = start['rep']
     lat, lon = start['pos']
+    if rep == 'tmfixed':
+        z, e, n, north = start['grid']
+        return gco.CoordTM(z, e, n, start['h'], start['H'], north, P)
     if rep == 'cart':
         h = start['h'] if start['h'] is not None else 0.0
         x, y, z = llh2xyz(lat, lon, h, E)
@@ -228,9 +231,20 @@ def gen(tier, seed):
                     yield {'cfg': cfg, 'rep': 'cart', 'pos': list(pos), 'h': h, 'H': None, 'nval': nv, 'depth': depth}
             for (h, H) in ((None, None), (0.0, 5.0), (-12.5, 0.0), (603.2489, 588.9799)):
                 yield {'cfg': cfg, 'rep': 'tm', 'pos': list(pos), 'h': h, 'H': H, 'depth': depth}
+    # the SAME grid numbers interpreted on two ellipsoids within one process, in both orders
+    for a, b in (('grs80-utm', 'ans-utm'), ('ans-utm', 'grs80-utm')):
+        for grid in ([55, 300000.0, 6200000.0, False], [31, 612345.6789, 1234567.891, True]):
+            yield {'cfg': a, 'then': b, 'rep': 'tmfixed', 'grid': grid, 'pos': [0.0, 0.0], 'h': 10.0, 'H': None, 'depth': 2}
 
 
 def ev(case, rec):
+    if case.get('then'):
+        first = dict(case)
+        second = dict(case, cfg=case['then'])
+        del first['then'], second['then']
+        ev(first, rec)
+        ev(second, rec)
+        return
     cfg = case['cfg']
     try:
         s0 = build(case, cfg)
